@@ -128,6 +128,16 @@ func genRecNode(r *rng, depth int) recNode {
 	return n
 }
 
+// recIntl: exported fields whose names start with upper-case letters that are not A-Z
+type recIntl struct {
+	Ärger  int
+	Über   string
+	Ωmega  []int8
+	Élan   *recIntl
+	Straße float64
+	ÑandÚ  map[string]int
+}
+
 func genRecList(r *rng, depth int) *recList {
 	if depth <= 0 || r.chance(1, 4) {
 		return nil
@@ -184,7 +194,14 @@ func recRun(route string, seed uint64) string {
 	o := guard(guardTime, func() {
 		var orig, target interface{}
 		var eq func() bool
-		if r.bool() {
+		if r.chance(1, 5) {
+			// field names outside ASCII: the member names are whatever Fold derives from them, and
+			// Unfold must find the fields again
+			v := recIntl{Ärger: int(r.n(100)) - 50, Über: string(r.genStr(genOpts{})), Ωmega: []int8{int8(r.n(100)), -3}, Élan: &recIntl{Ärger: 1 + r.n(9), Straße: float64(r.n(64)) / 4}, ÑandÚ: map[string]int{"k": r.n(7)}}
+			var out recIntl
+			orig, target = v, &out
+			eq = func() bool { return reflect.DeepEqual(v, out) }
+		} else if r.bool() {
 			v := genRecNode(r, 1+r.n(3))
 			var out recNode
 			orig, target = v, &out
@@ -207,7 +224,7 @@ func recRun(route string, seed uint64) string {
 			if eq() {
 				res = "R ok EQ"
 			} else {
-				res = fmt.Sprintf("R ok NEQ %+v", reflect.ValueOf(target).Elem().Interface())
+				res = "R ok NEQ " + asciiTok(fmt.Sprintf("%+v", reflect.ValueOf(target).Elem().Interface()))
 			}
 		}
 	})
